@@ -119,7 +119,7 @@ def run(ctx):
         return t
 
     lead_cfgs = ['FieldSet.LeadDrop.cfg', 'FieldSet.LeadRace.cfg'] + ([] if quick else ['FieldSet.LeadReplay.cfg'])
-    nsim1, nsim2 = (400, 300) if quick else (6000, 6000)
+    nsim1, nsim2 = (400, 300) if quick else (2000, 2000)
     ths = [
         # 1. the repaired design satisfies the contract (and the contract is satisfiable at all)
         job('mc', lambda: ctx.tlc('FieldSet', f'FieldSet.MC_{tier}.cfg', workers=min(4, vlib.NCPU), timeout=2400, coverage=True, heap='5g', tag='mc', count=False)),
@@ -167,7 +167,8 @@ def run(ctx):
         hists = list(terminal_hists(g.dump_path, cfg_maxops(ctx, 'FieldSet.Gen1_thorough.cfg')))
         if not hists:
             raise vlib.Inconclusive('no terminal histories in the dump')
-        chosen, nclasses = stratified(ctx.rng, hists, 9000)
+        # budgets fitted to the measured replay rate (about 1 history/s per 8 processes under load, 4-5/s idle)
+        chosen, nclasses = stratified(ctx.rng, hists, 1200)
         cases += [{'mode': 'hist', 'steps': h, 'boundaryImages': True} for h in chosen]
     gp = out['phantom']
     if gp.timed_out or not gp.ok:
@@ -177,10 +178,10 @@ def run(ctx):
     ph12 = [h for h in ph if phantom_stage(h) in (1, 2)]
     if not ph3:
         raise vlib.Inconclusive('vacuity guard: no history with rejected two-field point, crash, conflicting write')
-    fixed = ph3 + ph12[:(14 if quick else len(ph12))]      # never sampled
+    fixed = ph3 + ph12[:(14 if quick else 60)]      # never sampled
     cases += [{'mode': 'hist', 'steps': h, 'boundaryImages': True} for h in fixed]
     nsimc = {}
-    for name, budget, images in (('sim1', 160 if quick else 2500, True), ('sim2', 110 if quick else 2500, False)):
+    for name, budget, images in (('sim1', 160 if quick else 500, True), ('sim2', 110 if quick else 400, False)):
         sim = out[name]
         if not sim.ok:
             raise vlib.Inconclusive(f'simulation run {name} failed: ' + sim.stdout[-800:])
@@ -202,7 +203,7 @@ def run(ctx):
     soften(res)
     ctx.absorb(res, lines)
     if not quick:
-        res2, lines2 = ctx.replay(binary, cases[:3000], procs=vlib.NCPU, par=1, timeout=6000, case_timeout='1500s', args={'conc': ctx.seed + 3})
+        res2, lines2 = ctx.replay(binary, vlib.sample_list(ctx.rng, cases, 300), procs=vlib.NCPU, par=1, timeout=6000, case_timeout='1500s', args={'conc': ctx.seed + 3})
         soften(res2)
         ctx.absorb(res2, lines2)
     # were the model leads reproduced on the real code?
